@@ -48,11 +48,14 @@ func (config *CacheConfig) Verify() error {
 func (config *CacheConfig) getChunkConfig() immunityChunkConfig {
 	numChunks := core.MaxUint32(config.NumChunks, 1)
 
+	// The limits are divided among the chunks. A per-chunk limit of zero (limit smaller than the number of chunks)
+	// would make the chunk reject every item, and a per-chunk eviction step of zero would make a full chunk evict nothing,
+	// thus never admit again. Therefore each per-chunk value is at least 1.
 	return immunityChunkConfig{
 		cacheName:                   config.Name,
-		maxNumItems:                 config.MaxNumItems / numChunks,
-		maxNumBytes:                 config.MaxNumBytes / numChunks,
-		numItemsToPreemptivelyEvict: config.NumItemsToPreemptivelyEvict / numChunks,
+		maxNumItems:                 core.MaxUint32(config.MaxNumItems/numChunks, 1),
+		maxNumBytes:                 core.MaxUint32(config.MaxNumBytes/numChunks, 1),
+		numItemsToPreemptivelyEvict: core.MaxUint32(config.NumItemsToPreemptivelyEvict/numChunks, 1),
 	}
 }
 
